@@ -10,6 +10,11 @@ Confirms, in a scratch git worktree of /repo's HEAD (outside /repo and /verif, r
   * the demonstration fails with it.
 Then (second phase, --check) applies it to /repo itself, runs the property's quick check, records what the
 check reported, and undoes it straight afterwards.
+
+Note: after a `fix:` commit that shifts lines in a file, re-check the stored changes of that file AND look where
+they land: `git apply` relocates a hunk to any place whose context matches (ring_buffer.c has two identical wrap
+branches; four C19 patches moved into the unused twin and "were not caught" - they were no longer there). Rebase such
+a patch by a three-way merge (base = meta.repo_head, see DESIGN section 13) and keep the original as patch.orig.diff.
 """
 import json, os, shutil, subprocess, sys, time
 
